@@ -623,3 +623,66 @@ Proof.
   split. { repeat constructor; intro H; discriminate H. }
   vm_compute. intuition discriminate.
 Qed.
+
+(* the same with searches, RELATIVE to the untranslated ex_search: TrExAddr.callfx is cprog linked with a function ext in its
+   place; TrExAddr.search_ext says what is assumed of ext -- called with pat = &p, p at position i of s, it returns the row the
+   oracle `search` gives (or -1), moves p to the position the oracle gives, inside s, and changes nothing else.  For EVERY
+   address string (/re/ and ?re? included), the statements of C06_tr_ex_lineno and C06_tr_ex_region. *)
+Theorem C06_tr_ex_lineno_rel : forall ext m bs bn bl s i xrow len gbufs lblk search d fuel,
+  CLiteProps.str_at m bs s -> CLiteProps.bytes_lt256 s -> nth_error m bn = Some [CLite.VPtr bs (Z.of_nat i)] ->
+  CLiteProps.cell_at m GenCFuncs.G_xrow xrow ->
+  nth_error m GenCFuncs.G_bufs = Some gbufs -> nth_error gbufs TrExAddr.BUFS_LB = Some (CLite.VPtr bl 0) ->
+  nth_error m bl = Some lblk -> nth_error lblk TrLbufBase.L_ln_n = Some (CLite.VInt len) -> TrLbufMarks.marks_ints lblk ->
+  bs <> bn /\ GenCFuncs.G_xrow <> bn /\ GenCFuncs.G_bufs <> bn /\ bl <> bn -> TrExAddr.int_ok xrow -> TrExAddr.int_ok len ->
+  TrExAddr.search_ext ext search bs bn s -> (i <= length s)%nat -> (2 * S (length s) <= fuel)%nat ->
+  exists n j, CapDefs.ex_lineno len (TrExAddr.mark_of lblk) search xrow s i = CapDefs.Ok (n, j) /\ (i <= j)%nat /\ (j <= length s)%nat /\
+    (TrExAddr.lineno_fit len (TrExAddr.mark_of lblk) search xrow s i ->
+     exists j' nb, TrExAddr.callfx ext fuel (S (S (S d))) GenCFuncs.F_ex_lineno [CLite.VPtr bn 0] m
+                   = CLite.Ok (CLite.VInt n, (CLiteProps.upd m bn [CLite.VPtr bs (Z.of_nat j')] ++ [[CLite.VInt nb]])%list) /\
+                   (j' = j \/ n = -2) /\ (i <= j')%nat /\ (j' <= length s)%nat /\ TrExAddr.int_ok n).
+Proof. exact TrExAddr.tr_ex_lineno_rel. Qed.
+Print Assumptions C06_tr_ex_lineno_rel.
+
+Theorem C06_tr_ex_region_rel : forall ext m bs bb be bl s xrow len gbufs lblk vb0 e0 search d fuel,
+  CLiteProps.str_at m bs s -> nonul s -> CLiteProps.cell_at m GenCFuncs.G_xrow xrow ->
+  nth_error m bb = Some [vb0] -> nth_error m be = Some [CLite.VInt e0] ->
+  nth_error m GenCFuncs.G_bufs = Some gbufs -> nth_error gbufs TrExAddr.BUFS_LB = Some (CLite.VPtr bl 0) ->
+  nth_error m bl = Some lblk -> nth_error lblk TrLbufBase.L_ln_n = Some (CLite.VInt len) -> TrLbufMarks.marks_ints lblk ->
+  nth_error m GenCFuncs.G_lit_25_1 = Some GenCFuncs.gb_lit_25_1 -> TrExAddr.rdist bs bb be bl ->
+  TrExAddr.int_ok xrow -> TrExAddr.int_ok len -> TrExAddr.int_ok e0 -> 2 * Z.of_nat (S (length s)) <= 2147483647 ->
+  TrExAddr.search_ext ext search bs (length m) s -> (2 * S (length s) <= fuel)%nat ->
+  exists r, TrExAddr.region_full len (CapDefs.ex_lineno len (TrExAddr.mark_of lblk) search) s xrow = CapDefs.Ok r /\
+    (TrExAddr.region_fit len (TrExAddr.mark_of lblk) search s xrow ->
+     exists m', TrExAddr.callfx ext fuel (S (S (S (S d)))) GenCFuncs.F_ex_region [CLite.VPtr bs 0; CLite.VPtr bb 0; CLite.VPtr be 0] m
+                = CLite.Ok (CLite.VInt (CLite.b2z (fst (fst (fst r)))), m') /\
+       nth_error m' bb = Some [CLite.VInt (snd (fst (fst r)))] /\ nth_error m' be = Some [CLite.VInt (snd (fst r))] /\
+       CLiteProps.cell_at m' GenCFuncs.G_xrow (snd r) /\
+       (forall b', (b' < length m)%nat -> b' <> bb -> b' <> be -> b' <> GenCFuncs.G_xrow -> nth_error m' b' = nth_error m b')).
+Proof. exact TrExAddr.tr_ex_region_rel. Qed.
+Print Assumptions C06_tr_ex_region_rel.
+
+(* non-vacuity: search_ext is satisfiable (an ext that answers row 2 and moves p to the end of the string, for the oracle that
+   says so), and the linked program RUNS: with an ext that answers row 2 and steps over three bytes, `/a/,$` on 5 lines
+   resolves to lines 3..5 (beg = 2, end = 5) *)
+Example C06_tr_search_nonvacuous :
+  (forall bs bn s,
+     TrExAddr.search_ext (fun _ mm => CLite.Ok (CLite.VInt 2, CLiteProps.upd mm bn [CLite.VPtr bs (Z.of_nat (length s))]))
+                         (fun _ t _ => (Some 2, length t)) bs bn s) /\
+  let ext := fun (args : list CLite.val) (mm : CLite.mem) =>
+               match args with
+               | [CLite.VPtr b 0] => match nth_error mm b with
+                                     | Some [CLite.VPtr bs' o] => CLite.Ok (CLite.VInt 2, CLiteProps.upd mm b [CLite.VPtr bs' (o + 3)])
+                                     | _ => CLite.Err CLite.EShape
+                                     end
+               | _ => CLite.Err CLite.EShape
+               end in
+  let bl := length GenCFuncs.cglobals in
+  match TrExAddr.callfx ext 100 10 GenCFuncs.F_ex_region [CLite.VPtr (S bl) 0; CLite.VPtr (S (S bl)) 0; CLite.VPtr (S (S (S bl))) 0]
+          (TrExAddr.ex_mem 5 0 [47; 97; 47; 44; 36]) with
+  | CLite.Ok (r, m') => Some (r, nth_error m' (S (S bl)), nth_error m' (S (S (S bl))))
+  | CLite.Err _ => None
+  end = Some (CLite.VInt 0, Some [CLite.VInt 2], Some [CLite.VInt 5]).
+Proof.
+  split; [|vm_compute; reflexivity].
+  intros bs bn s. split; [intros; reflexivity|]. intros xr i Hi. cbn [snd]. lia.
+Qed.
